@@ -514,11 +514,13 @@ def translate(repo):
         D.add("mallocOverAlign", ("al",), over.group(2), "alignof(T)", {}, {}, alT,
               grid=lambda: ((a,) for a in (1, 2, 4, 8, 16, 32, 64, 128, 256, 4096)))
         D.add("mallocOverBytes", ("sz", "n"), over.group(3), "n * sizeof(T)", {"n": ("n", "n")}, szT, grid=count_grid, wrap=True)
-        out.append("def mallocAlignment (al : Nat) : Nat := if mallocOverCond al then mallocOverAlign al else maxAlign")
-        out.append("def mallocBytesFor (sz al n : Nat) : Nat := if mallocOverCond al then mallocOverBytes sz n else mallocBytes sz n")
     else:
-        out.append("def mallocAlignment (al : Nat) : Nat := maxAlign")
-        out.append("def mallocBytesFor (sz al n : Nat) : Nat := mallocBytes sz n")
+        out.append("-- the source has no branch for over-aligned types: every request goes to malloc")
+        out.append("def mallocOverCond (al : Nat) : Bool := false")
+        out.append("def mallocOverAlign (al : Nat) : Nat := al")
+        out.append("def mallocOverBytes (sz n : Nat) : Nat := mallocBytes sz n")
+    out.append("def mallocAlignment (al : Nat) : Nat := if mallocOverCond al then mallocOverAlign al else maxAlign")
+    out.append("def mallocBytesFor (sz al n : Nat) : Nat := if mallocOverCond al then mallocOverBytes sz n else mallocBytes sz n")
     if not re.search(r"if\s*\(\s*!\s*ret\s*\)\s*\{?\s*throw\s+std::bad_alloc", body):
         raise TranslateError("MallocAllocator::allocate no longer turns a null result into bad_alloc")
     if not re.search(r"void\s+deallocate\s*\([^)]*\)\s*\{\s*std::free\s*\(\s*p\s*\)\s*;\s*\}", src):
